@@ -20,6 +20,8 @@ EXTENDS Exact, Json
 CONSTANT SubIdx    \* indices (into the sorted lattice) of the points loops are made of
 CONSTANT MaxLen    \* 3..5
 CONSTANT ProbeIdx  \* indices of the query points
+CONSTANT Op        \* "op" of the emitted cases ("c04loop" / "c06lattice")
+CONSTANT NQ        \* number of query edges between probe points (C06: CrossingEdgeQuery)
 
 \* one lattice point per direction (two points of the same direction are one point of the sphere)
 IsPrimitive(p) == \A d \in 2..N : ~(p[1] % d = 0 /\ p[2] % d = 0 /\ p[3] % d = 0)
@@ -95,11 +97,30 @@ AnchorIndependent ==
                 LET x == InLoop(p, L) y == InLoop(p, Rot(L))
                 IN  (x # "U" /\ y # "U") => x = y
 
+\* query edges between probe points, and for each the exact crossing with every edge of the loop
+\* ("U": not robust under the unit embedding)
+ProbeSeq == SetToSortSeq(Probes, LexLess)
+QueryPairs ==
+    LET n == Len(ProbeSeq)
+        cand == [k \in 1..NQ |-> <<ProbeSeq[((7 * k) % n) + 1], ProbeSeq[((11 * k + 3) % n) + 1]>>]
+    IN  SelectSeq(cand, LAMBDA q : ~Parallel(q[1], q[2]))
+CrossWith(q, l) ==
+    [k \in 1..Len(l) |->
+        IF CrossingRobust(q[1], q[2], l[k], Nxt(l, k)) THEN CrossingSign(q[1], q[2], l[k], Nxt(l, k)) ELSE "U"]
+\* crossing is symmetric in the two edges
+CrossSymmetric ==
+    Full => \A n \in 1..Len(QueryPairs) : \A k \in 1..Len(L) :
+                LET q == QueryPairs[n]
+                IN  CrossingSign(q[1], q[2], L[k], Nxt(L, k)) = CrossingSign(L[k], Nxt(L, k), q[2], q[1])
+
 Emit ==
     IF Full
-    THEN LET ps == SetToSortSeq(Probes, LexLess)
-         IN  PrintT(<<"CASE", ToJson([op |-> "c04loop", n |-> N, verts |-> L,
+    THEN LET ps == ProbeSeq
+             qs == QueryPairs
+         IN  PrintT(<<"CASE", ToJson([op |-> Op, n |-> N, verts |-> L,
                                       pts |-> ps,
-                                      want |-> [k \in 1..Len(ps) |-> InLoop(ps[k], L)]])>>)
+                                      want |-> [k \in 1..Len(ps) |-> InLoop(ps[k], L)],
+                                      qs |-> qs,
+                                      cross |-> [n \in 1..Len(qs) |-> CrossWith(qs[n], L)]])>>)
     ELSE TRUE
 =============================================================================
